@@ -36,8 +36,10 @@ def make_ops(rng, cfg, profile, tier):
     ni = len(cfg['ids'])
     for _ in range(rng.randrange(4, 16)):
         r = rng.random()
-        if r < 0.2:
+        if r < 0.15:
             ops.append({'op': 'REORDER', 'a': [rng.randrange(1 << 16), rng.randrange(1 << 16)]})
+        elif r < 0.2:
+            ops.append({'op': 'SHUFFLE_INPLACE', 'a': [rng.randrange(1 << 16)]})
         elif r < 0.35:
             ops.append({'op': 'REMOVE', 'a': [rng.choice(['individual', 'first', 'last', 'cond']), rng.randrange(64),
                                               float(rng.randrange(-2, 3))]})
@@ -252,6 +254,15 @@ class Session:
         if kind == 'REORDER':
             self.present(a[0], a[1])
             self.check_map()
+            ctx.log(kind)
+        elif kind == 'SHUFFLE_INPLACE':
+            # the rows of the SAME Database object are re-arranged with pandas (same number of rows): the map must be
+            # rebuilt by whatever comes next
+            idx = list(range(len(self.db.data)))
+            random.Random(a[0]).shuffle(idx)
+            self.db.data = self.db.data.iloc[idx].reset_index(drop=True)
+            self.stale = True
+            ctx.count('removed')
             ctx.log(kind)
         elif kind == 'REMOVE':
             mode, sel, val = a
